@@ -85,12 +85,13 @@ static carquet_arena_block_t *mk_block(size_t *size, size_t *used) {
 }
 
 static void mk_arena(carquet_arena_t *a) {
+#ifdef CQV_NBLK
+  g_n = CQV_NBLK; /* case split over the list length (one job per length): keeps the list walks concrete */
+#else
   g_n = nondet_unsigned();
+#endif
   g_cur = nondet_unsigned();
   __CPROVER_assume(g_n >= 1 && g_n <= NBLK && g_cur < g_n);
-#ifdef T_N1
-  __CPROVER_assume(g_n == 1);
-#endif
   g_blk[0] = mk_block(&g_size[0], &g_used[0]);
   g_blk[1] = g_blk[2] = NULL;
   if (g_n >= 2) { g_blk[1] = mk_block(&g_size[1], &g_used[1]); g_blk[0]->next = g_blk[1]; }
@@ -165,6 +166,19 @@ static void fin(carquet_arena_t *a) {
   __CPROVER_assert(a->head == NULL && a->current == NULL && a->total_allocated == 0 && a->total_capacity == 0, "destroy leaves the empty state");
 }
 
+/* End of the allocation entries.  AINV has been asserted, and AINV is exactly the precondition under
+ * which c19_arena_destroy proves carquet_arena_destroy (frees every block once, lists of 1..4
+ * blocks); so here the harness releases the blocks itself through its own pointers (the real
+ * destroy walking the list again after the call under test costs 8M clauses per block). */
+static void release(carquet_arena_t *a) {
+  carquet_arena_block_t *t = tail_block();
+  if (t) free(t);
+  if (g_n >= 3) free(g_blk[2]);
+  if (g_n >= 2) free(g_blk[1]);
+  free(g_blk[0]);
+  (void)a;
+}
+
 /* postcondition of an allocation of `size` bytes with alignment `al` (power of two >= 1) that
  * returned p: p != NULL => a region of size bytes inside ONE block, not overlapping anything
  * handed out before (offset >= that block's old fill level), padding < al, aligned, and the block
@@ -219,12 +233,14 @@ void h_alloc_aligned(void) {
 #endif
   if (p) {
     if (a.current == g_blk[g_cur]) CQV_CANARY("alloc_aligned: fits in the current block");
+#if !defined(CQV_NBLK) || CQV_NBLK >= 2
     else if (a.current == g_blk[0] || a.current == g_blk[1] || a.current == g_blk[2]) CQV_CANARY("alloc_aligned: fits in a later block");
+#endif
     else CQV_CANARY("alloc_aligned: new block");
   } else if (size) {
     CQV_CANARY("alloc_aligned: can fail");
   }
-  fin(&a);
+  release(&a);
   CQV_CANARY("alloc_aligned harness end");
 }
 
@@ -236,57 +252,70 @@ void h_alloc(void) {
   void *p = carquet_arena_alloc(&a, size);
   alloc_post(&a, p, size, CARQUET_ARENA_ALIGNMENT, "");
   if (p) CQV_CANARY("alloc: can succeed"); else if (size) CQV_CANARY("alloc: can fail");
-  fin(&a);
+  release(&a);
   CQV_CANARY("alloc harness end");
 }
 
+/* ---- callers of carquet_arena_alloc_aligned: calloc / memdup / strndup / strdup ----------------
+ * Modular step: in these jobs carquet_arena_alloc_aligned is REPLACED by its contract
+ * (contracts/arena.ovl): NULL, or a fresh region of exactly `size` bytes, NULL when size == 0.
+ * That contract is the allocator abstraction of what c19_arena_alloc_aligned_n* prove about the real
+ * function (region of size accessible bytes inside one block, beyond everything handed out before);
+ * its preconditions (power-of-two alignment, sizes <= 2^40) are checked at every call site here.
+ * The object size of the result shows that exactly the intended number of bytes was requested. */
+static void mk_arena_abstract(carquet_arena_t *a) {
+  a->head = a->current = NULL; /* never dereferenced: the only arena access is the replaced call */
+  a->default_block_size = nondet_size_t();
+  a->total_allocated = nondet_size_t();
+  a->total_capacity = nondet_size_t();
+  g_mc_k = nondet_size_t();
+}
+#define FRESH_OF(p, n) (__CPROVER_DYNAMIC_OBJECT(p) && __CPROVER_POINTER_OFFSET(p) == 0 && __CPROVER_OBJECT_SIZE(p) == (n))
+
 void h_calloc(void) {
   carquet_arena_t a;
-  mk_arena(&a);
+  mk_arena_abstract(&a);
   size_t count = nondet_size_t(), size = nondet_size_t();
-  /* the product is the request: either it fits the size domain or it overflows / exceeds it */
-  __CPROVER_assume(count <= H_MAXSZ && size <= H_MAXSZ);
-  __CPROVER_assume(count == 0 || size <= H_MAXSZ / count);
+  __CPROVER_assume(count <= 0xFFFFFFFFu && size <= 0xFFFFFFFFu); /* no 64-bit overflow: see h_calloc_overflow for the rest */
   size_t total = count * size;
+  __CPROVER_assume(total <= H_MAXSZ);
   uint8_t *p = carquet_arena_calloc(&a, count, size);
-  alloc_post(&a, p, total, CARQUET_ARENA_ALIGNMENT, "");
+  __CPROVER_assert(p == NULL || FRESH_OF(p, total), "calloc: NULL or a region of exactly count*size bytes");
   __CPROVER_assert(!(p && g_mc_k < total) || p[g_mc_k] == 0, "calloc: region is zeroed (ghost index)");
   if (p && g_mc_k < total) CQV_CANARY("calloc: zero byte observed");
   if (!p && total) CQV_CANARY("calloc: can fail");
-  fin(&a);
+  if (p) free(p);
   CQV_CANARY("calloc harness end");
 }
 
-/* overflow of count*size is refused before anything is allocated */
+/* overflow of count*size is refused before anything is requested from the arena */
 void h_calloc_overflow(void) {
   carquet_arena_t a;
-  mk_arena(&a);
+  mk_arena_abstract(&a);
+  carquet_arena_t old = a;
   size_t count = nondet_size_t(), size = nondet_size_t();
   __CPROVER_assume(count != 0 && size > (size_t)-1 / count);
   void *p = carquet_arena_calloc(&a, count, size);
   __CPROVER_assert(p == NULL, "calloc: overflowing count*size returns NULL");
-  (void)assert_ainv(&a);
-  assert_arena_unchanged(&a);
-  fin(&a);
+  __CPROVER_assert(a.current == old.current && a.total_allocated == old.total_allocated && a.total_capacity == old.total_capacity, "calloc overflow: arena untouched");
   CQV_CANARY("calloc overflow harness end");
 }
 
 void h_memdup(void) {
   carquet_arena_t a;
-  mk_arena(&a);
+  mk_arena_abstract(&a);
   size_t size = nondet_size_t();
   __CPROVER_assume(size <= H_MAXSZ);
   uint8_t *src = NULL;
   if (nondet_bool()) { src = malloc(size); __CPROVER_assume(src != NULL); }
   uint8_t src_k = (src && g_mc_k < size) ? src[g_mc_k] : 0;
   uint8_t *p = carquet_arena_memdup(&a, src, size);
-  alloc_post(&a, p, size, CARQUET_ARENA_ALIGNMENT, "");
-  __CPROVER_assert(p == NULL || src != NULL, "memdup: NULL source gives NULL");
+  __CPROVER_assert(p == NULL || (src != NULL && size != 0 && FRESH_OF(p, size)), "memdup: NULL (also for NULL source / size 0) or a region of exactly size bytes");
   __CPROVER_assert(!(p && g_mc_k < size) || (p[g_mc_k] == src_k && src[g_mc_k] == src_k), "memdup: copy equals the source (ghost index)");
   if (p && g_mc_k < size) CQV_CANARY("memdup: byte observed");
   if (!p && src && size) CQV_CANARY("memdup: can fail");
   if (src) free(src);
-  fin(&a);
+  if (p) free(p);
   CQV_CANARY("memdup harness end");
 }
 
@@ -294,7 +323,7 @@ void h_memdup(void) {
  * promised (term == slen) and the caller's max_len keeps the scan inside the object */
 static char *mk_string(_Bool need_nul) {
   size_t slen = nondet_size_t();
-  __CPROVER_assume(slen >= 1 && slen <= H_MAXSZ);
+  __CPROVER_assume(slen >= 1 && slen <= H_MAXSZ - 1);
   char *s = malloc(slen);
   __CPROVER_assume(s != NULL);
   g_str = s;
@@ -310,9 +339,9 @@ static char *mk_string(_Bool need_nul) {
   return s;
 }
 
-static void strdup_post(carquet_arena_t *a, char *p, const char *s, size_t len) {
-  alloc_post(a, p, len + 1, 1, "");
+static void strdup_post(char *p, const char *s, size_t len) {
   if (p) {
+    __CPROVER_assert(FRESH_OF(p, len + 1), "strdup: region of exactly length+1 bytes");
     __CPROVER_assert(p[len] == 0, "strdup: copy is NUL-terminated at the computed length");
     __CPROVER_assert(!(g_mc_k < len) || p[g_mc_k] == s[g_mc_k], "strdup: copy equals the source prefix (ghost index)");
     __CPROVER_assert(!(cqv_j < len) || s[cqv_j] != 0, "strdup: no NUL inside the copied prefix");
@@ -321,49 +350,45 @@ static void strdup_post(carquet_arena_t *a, char *p, const char *s, size_t len) 
 
 void h_strndup(void) {
   carquet_arena_t a;
-  mk_arena(&a);
+  mk_arena_abstract(&a);
   char *s = nondet_bool() ? mk_string(0) : NULL;
   size_t max_len = nondet_size_t();
-  __CPROVER_assume(max_len <= H_MAXSZ);
+  __CPROVER_assume(max_len <= H_MAXSZ - 1);
   if (s) __CPROVER_assume(g_str_term < g_str_objsize || max_len <= g_str_objsize);
   cqv_strn_len = 0;
   char *p = carquet_arena_strndup(&a, s, max_len);
   if (s == NULL) {
     __CPROVER_assert(p == NULL, "strndup: NULL source gives NULL");
-    (void)assert_ainv(&a);
-    assert_arena_unchanged(&a);
   } else {
     size_t len = cqv_strn_len;
     __CPROVER_assert(len <= max_len && (len == max_len || s[len] == 0), "strndup: length is max_len or stops at a NUL");
-    strdup_post(&a, p, s, len);
+    strdup_post(p, s, len);
     if (p && len && g_mc_k < len) CQV_CANARY("strndup: byte observed");
     if (p && len == max_len) CQV_CANARY("strndup: truncated at max_len");
     if (p && len < max_len) CQV_CANARY("strndup: stopped at NUL");
     if (!p) CQV_CANARY("strndup: can fail");
     free(s);
+    if (p) free(p);
   }
-  fin(&a);
   CQV_CANARY("strndup harness end");
 }
 
 void h_strdup(void) {
   carquet_arena_t a;
-  mk_arena(&a);
+  mk_arena_abstract(&a);
   char *s = nondet_bool() ? mk_string(1) : NULL;
   cqv_strn_len = 0;
   char *p = carquet_arena_strdup(&a, s);
   if (s == NULL) {
     __CPROVER_assert(p == NULL, "strdup: NULL source gives NULL");
-    (void)assert_ainv(&a);
-    assert_arena_unchanged(&a);
   } else {
     size_t len = cqv_strn_len;
     __CPROVER_assert(len <= g_str_term && s[len] == 0, "strdup: length is the index of the first NUL");
-    strdup_post(&a, p, s, len);
+    strdup_post(p, s, len);
     if (p) CQV_CANARY("strdup: can succeed"); else CQV_CANARY("strdup: can fail");
     free(s);
+    if (p) free(p);
   }
-  fin(&a);
   CQV_CANARY("strdup harness end");
 }
 
@@ -392,6 +417,13 @@ void h_init_size(void) {
 void h_destroy(void) {
   carquet_arena_t a;
   mk_arena(&a);
+  if (nondet_bool()) { /* a 4th block, as left behind by an allocation that appended one; it may be current */
+    size_t s4, u4;
+    carquet_arena_block_t *x = mk_block(&s4, &u4);
+    (g_n == 1 ? g_blk[0] : g_n == 2 ? g_blk[1] : g_blk[2])->next = x;
+    if (nondet_bool()) a.current = x;
+    CQV_CANARY("destroy: with an appended block");
+  }
   carquet_arena_destroy(&a);
   __CPROVER_assert(a.head == NULL && a.current == NULL && a.total_allocated == 0 && a.total_capacity == 0, "destroy leaves the empty state");
   fin(&a); /* a second destroy is harmless */
@@ -413,8 +445,9 @@ void h_reset(void) {
   CQV_CANARY("reset harness end");
 }
 
-/* save; then an arbitrary later state of the SAME block list (fill levels / current moved forward,
- * as allocations do); restore brings the marked block back and empties the later blocks */
+/* save; then an arbitrary LATER state of the same arena as allocations produce it (fill levels of the
+ * marked block and of later blocks raised, current moved forward, possibly one block appended);
+ * restore brings the marked block back and empties the later blocks */
 void h_save_restore(void) {
   carquet_arena_t a;
   mk_arena(&a);
@@ -422,23 +455,32 @@ void h_save_restore(void) {
   __CPROVER_assert(m.block == g_blk[g_cur] && m.used == g_used[g_cur] && m.total_allocated == g_olda.total_allocated, "save records the current block, its fill level and the counter");
   (void)assert_ainv(&a);
   assert_arena_unchanged(&a);
-  /* later state: allocations only raise fill levels of the marked block and later ones and move current forward */
-  size_t sz = nondet_size_t(), al = nondet_size_t();
-  __CPROVER_assume(sz <= H_MAXSZ && al <= 4096 && al != 0 && (al & (al - 1)) == 0);
-  void *p = carquet_arena_alloc_aligned(&a, sz, al);
-  unsigned n1 = assert_ainv(&a);
-  carquet_arena_block_t *added = tail_block();
+  unsigned c2 = nondet_unsigned();
+  __CPROVER_assume(c2 >= g_cur && c2 < g_n);
+  size_t u0 = nondet_size_t(), u1 = nondet_size_t(), u2 = nondet_size_t();
+  if (g_cur <= 0) { __CPROVER_assume(u0 <= g_size[0] && (g_cur != 0 || u0 >= g_used[0])); g_blk[0]->used = u0; }
+  if (g_n >= 2 && g_cur <= 1) { __CPROVER_assume(u1 <= g_size[1] && (g_cur != 1 || u1 >= g_used[1])); g_blk[1]->used = u1; }
+  if (g_n >= 3 && g_cur <= 2) { __CPROVER_assume(u2 <= g_size[2] && (g_cur != 2 || u2 >= g_used[2])); g_blk[2]->used = u2; }
+  a.current = g_blk[c2];
+  carquet_arena_block_t *added = NULL;
+  if (nondet_bool()) {
+    size_t s4, u4;
+    added = mk_block(&s4, &u4);
+    (g_n == 1 ? g_blk[0] : g_n == 2 ? g_blk[1] : g_blk[2])->next = added;
+    a.current = added;
+  }
+  a.total_allocated = nondet_size_t();
   carquet_arena_restore(&a, m);
   unsigned n2 = assert_ainv(&a);
   assert_old_blocks_linked(&a);
-  __CPROVER_assert(n2 == n1, "restore keeps every block (including one added since the save)");
+  __CPROVER_assert(n2 == g_n + (added ? 1 : 0) && tail_block() == added, "restore keeps every block (including one added since the save)");
   __CPROVER_assert(a.current == g_blk[g_cur] && a.total_allocated == g_olda.total_allocated, "restore: current block and counter as saved");
   __CPROVER_assert(g_blk[g_cur]->used == g_used[g_cur], "restore: marked block back to the saved fill level");
   __CPROVER_assert((g_cur >= 1 || g_n < 2 || g_blk[1]->used == 0) && (g_cur >= 2 || g_n < 3 || g_blk[2]->used == 0) && (added == NULL || added->used == 0),
                    "restore: blocks after the marked one are emptied");
   __CPROVER_assert((g_cur < 1 || g_blk[0]->used == g_used[0]) && (g_cur < 2 || g_blk[1]->used == g_used[1]), "restore: blocks before the marked one untouched");
-  if (p && added) CQV_CANARY("save/restore: across a new block");
-  if (p && !added) CQV_CANARY("save/restore: within existing blocks");
+  if (added) CQV_CANARY("save/restore: across an appended block");
+  if (!added && g_n == 3 && g_cur == 0) CQV_CANARY("save/restore: within existing blocks");
   fin(&a);
   CQV_CANARY("save/restore harness end");
 }
